@@ -273,6 +273,19 @@ def classify(fa, b, s):
             if v is not None and v < n_arr:
                 return "constant index into a fixed-size array"
         on_param_buffer = bool(recv and 1 <= recv[0] <= b.d["argc"] and "[u8]" in b.local_ty(recv[0]))
+        is_str = recv_ty.replace("&", "").replace("mut ", "").strip() in ("str", "std::string::String")
+        if is_str and rp:
+            # a byte length test says nothing about char boundaries: `&s[..n]` panics inside a multi-byte character.
+            # Only offsets 0 / s.len() (and constants 0) are boundaries by construction.
+            def boundary(o):
+                v = const_of(b, o)
+                if v == 0:
+                    return True
+                t_ = _call_result(b, o, ("::len",))
+                return t_ is not None and _root(b, t_["a"][0]) == (recv[0] if recv else None)
+            if all(boundary(o) for o in rp[1]):
+                return "str range whose bounds are 0 / the string's own len()"
+            return None
         guards = len_guards(b) + (decode_guards(b) if on_param_buffer else [])
         g = common.guarded_by(b, s["bb"], guards)
         if rp:
